@@ -219,6 +219,9 @@ func (s *scanner) scanner(store *stor.Stor) {
 			break
 		}
 		buf := store.Data(off)
+		if len(buf) < stateLen {
+			continue // too close to the end of the data to be a state
+		}
 		if string(buf[magic2at:magic2at+len(magic2)]) != magic2 {
 			continue
 		}
